@@ -13,7 +13,7 @@ Act(ev) ==
   CASE ev.op = "reset"   -> Reset
     [] ev.op = "submit"  -> Submit(ev.t)
     [] ev.op = "mkblock" -> MkAnyBlock(ev.p, ev.txs)
-    [] ev.op = "play"    -> Play(ev.b)
+    [] ev.op = "play"    -> Play(ev.b, ev.res)
     [] ev.op = "mine"    -> IF Range(ev.txs) = pool /\ NoDupSeq(ev.txs) THEN Mine(ev.txs) ELSE Mine(TopoOrder(pool))
     [] ev.op = "walk"    -> Walk(ev.d, ev.prune, Range(ev.obs.pool))
     [] ev.op = "restart" -> Restart
@@ -21,12 +21,15 @@ Act(ev) ==
 (* JSON arrays standing for sets are compared as sets *)
 Norm(o) == [o EXCEPT !.utxo = Range(@), !.pool = Range(@)]
 
+(* After a known deviation has changed an outcome the node is, by the finding itself, in a state the
+   IDEAL design does not have; the rest of that behaviour is not judged (until the next reset). *)
+Tainted == dev # {}
 TStep ==
   /\ l <= Len(Trace) /\ div = NoDiv
   /\ LET ev == Trace[l] IN
-     /\ Act(ev)
+     /\ IF Tainted /\ ev.op # "reset" THEN UNCHANGED vars ELSE Act(ev)
      /\ devAll' = devAll \cup dev'
-     /\ div' = IF ev.op = "reset" THEN NoDiv
+     /\ div' = IF ev.op = "reset" \/ Tainted \/ dev' # {} THEN NoDiv
                ELSE LET r == hist'[Len(hist')].res
                         okLive == Norm(ev.obs) = Obs'
                         okReopen == Has(ev, "robs") => Norm(ev.robs) = Obs' IN
